@@ -14,7 +14,7 @@ import ast
 from ..core import walk_own, norm, is_self_attr, AnalysisError
 from ..resolve import bind_args
 from ..report import Ob, Floor
-from ..rules import twin
+from ..rules import twin, plumb
 from ..rules.effect import EffectIndex, OptionInfluence
 from ..abseval import Evaluator
 from .. import exceptions
@@ -185,6 +185,10 @@ def check(ctx, tier):
     o_tp, n_tp = ctx.attempt(two_pass_agreement, ctx, "D-d", default=([], 0))
     obs += o_tp
     obs += ctx.attempt(one_answer_per_solution, ctx, "D-e", default=[])
+    for _opt in ("limit_remote_instances", "instances_cap", "disable_endpoint_cache", "depth_for_building_subgraph"):
+        obs += ctx.attempt(lambda c, cl, o=_opt: plumb.forwarding(c, cl, o, lambda prm: prm == o,
+                                                                   [c.flow.param("shexer.shaper:Shaper.__init__", o)],
+                                                                   skip_funcs={"shexer.shaper:Shaper.__init__"})[0], ctx, "D-f", default=[])
     exceptions.apply(obs)
     return {"obs": obs, "floors": [Floor("EndpointSGraph construction sites", n_sites, 3), Floor("cache-flag control sites", len(oi.sites), 4),
                                    Floor("options common to both passes", n_tp, 20)],
